@@ -173,10 +173,14 @@ def run(chk):
         "times on the 1/64 s grid, so every float subtraction/comparison in Budget is exact",
     ]
     theorems_ok = chk.check_theorems()
-    tie = None
+    tie = ftie = None
     if theorems_ok:
         import source_tie
-        tie = source_tie.budget_tie(chk)
+        from concurrent.futures import ThreadPoolExecutor
+        with ThreadPoolExecutor(max_workers=2) as ex:
+            # budget.py = Budget.v; and the one place the retry loop consults the budget (_handle_failure = Runner.handle_failure)
+            f1, f2 = ex.submit(source_tie.budget_tie, chk), ex.submit(source_tie.failure_tie, chk)
+            tie, ftie = f1.result(), f2.result()
         chk.coverage["source_translation"] = {k: v for k, v in tie.items() if k != "ir"}
         if tie["ok"]:
             chk.coverage["obligations"] += len(tie["theorems"])
@@ -253,6 +257,9 @@ def run(chk):
             no_input=True,
         )
 
+    if ftie is not None:
+        source_tie.report(chk, ftie, "failure", "Budget histories, policy-level scripts (falsy Budget subclasses included) and thread "
+                          "schedules: no property violation found")
     if tie is not None and not tie["ok"] and not chk.violations:
         # the translated source no longer proves equal to the model and no failing history was found above
         chk.violation({"kind": "source-translation", "what": tie["detail"], "stage": tie["stage"],
